@@ -196,16 +196,21 @@ def verdict(ctx: Ctx, rule: str) -> None:
 def replay_loading(ctx: Ctx, rule: str) -> None:
     fref = f"{RUNNER}:TestRunner.results_from_previous_jobs"
     fn = ctx.repo.func(fref)
-    views = function_views(ctx, fref, None)
-    n_raise = {"missing": 0, "notests": 0}
-    for v in views:
-        if v.path.exit == "raise" and PathEnum._raised_name(v.path.exit_node) == "RuntimeError":
-            prem = norm.show(v.premise(len(v.steps), 0))
-            if "not (os.path.isfile(" in prem:
+    # the two rejections and the one skip, by the test that guards them (semantic, on the guarding `if` itself)
+    n_raise = {"missing": 0, "notests": 0, "empty_name_skipped": 0}
+    for i in ast.walk(fn.node):
+        if not isinstance(i, ast.If) or i.orelse:
+            continue
+        f = norm.formula(i.test)
+        if len(i.body) == 1 and isinstance(i.body[0], ast.Raise) and PathEnum._raised_name(i.body[0]) == "RuntimeError":
+            if norm.equivalent(f, norm.formula(ast.parse("not os.path.isfile(replay_results)", mode="eval").body)):
                 n_raise["missing"] += 1
-            if "not ('tests' in " in prem:
+            if norm.equivalent(f, norm.formula(ast.parse("'tests' not in data", mode="eval").body)):
                 n_raise["notests"] += 1
-    ok = n_raise["missing"] >= 1 and n_raise["notests"] >= 1
+        if len(i.body) == 1 and isinstance(i.body[0], ast.Continue) and norm.equivalent(f, norm.formula(ast.parse("not replay_job", mode="eval").body)):
+            n_raise["empty_name_skipped"] += 1
+    other_exits = [x for x in ast.walk(fn.node) if isinstance(x, (ast.Continue, ast.Break, ast.Return))]
+    ok = n_raise["missing"] == 1 and n_raise["notests"] == 1 and n_raise["empty_name_skipped"] == 1 and len(other_exits) == 1
     adds = [s for s in ast.walk(fn.node) if isinstance(s, ast.AugAssign) and ast.unparse(s.target) == "self.previous_results"]
     ok = ok and len(adds) == 1
     # the collected results only ever grow: every test detail of every listed job is kept
@@ -271,6 +276,8 @@ def run(ctx: Ctx) -> None:
 NODE = "cartgraph/node.py"
 G = "cartgraph/graph.py"
 MUTANTS = [
+    ("replay-existing-file-rejected", "plugins/runner.py", "            if not os.path.isfile(replay_results):", "            if os.path.isfile(replay_results):", "5"),
+    ("replay-named-jobs-skipped", "plugins/runner.py", "            if not replay_job:\n                continue", "            if replay_job:\n                continue", "5"),
     ("rerun-defaults-swapped", "cartgraph/node.py", "        if self.params.get(\"replay\"):\n            rerun_status = self.params.get_list(", "        if not self.params.get(\"replay\"):\n            rerun_status = self.params.get_list(", "d"),
     ("rerun-default-not-all", "cartgraph/node.py", "rerun_status = self.params.get_list(\"rerun_status\", []) or all_statuses", "rerun_status = self.params.get_list(\"rerun_status\", [])", "d"),
     ("retry-prefix-dropped", "plugins/runner.py", "        if run_times > 0:\n            node.prefix = original_prefix + f\"r{run_times}\"\n", "", "2"),
